@@ -202,6 +202,7 @@ class Ruler(Generic[RuleFuncTv]):
         """
         if isinstance(names, str):
             names = [names]
+        self.__cache__ = None
         result: list[str] = []
         for name in names:
             idx = self.__find__(name)
@@ -226,6 +227,7 @@ class Ruler(Generic[RuleFuncTv]):
         """
         if isinstance(names, str):
             names = [names]
+        self.__cache__ = None
         for rule in self.__rules__:
             rule.enabled = False
         return self.enable(names, ignoreInvalid)
@@ -242,6 +244,7 @@ class Ruler(Generic[RuleFuncTv]):
         """
         if isinstance(names, str):
             names = [names]
+        self.__cache__ = None
         result = []
         for name in names:
             idx = self.__find__(name)
